@@ -8,7 +8,7 @@ from vlib import *
 TRACE_CFG = "Erc20PegTrace.cfg"
 
 MANIFEST_ENTRY = dict(engine="Erc20Peg", design="§4 C10",
-   technique="TLA+ spec Erc20Peg.tla: property layer (backing invariants per pair origin, exact-or-no-effect rule for every conversion path) and as-built machine (ConvertCoin, ConvertERC20, EVM post-tx hook, bank-send wrapper, ICS-20 callbacks, toggle, holder burn, thief drain, contract destruction) parameterised by the behaviour of the token contract - five fixed contracts and a switchable adversarial family (how balanceOf/totalSupply answer: truthfully / no data / revert / 16 bytes / always 0 / too high; what transfer does: honest / nothing / half / double / to the thief instead / to the receiver and as much again to the thief / moves but answers false, nothing, 16 bytes / moves nothing and answers false; for ever or only until the first transfer, so that the answer before a transfer differs from the one after it); the state holds the token's TRUE books, the machine computes what the keeper SEES; TLC exhaustive model checking of the intended design and of the machine with the named defects hook_no_checks, unescrow_receiver_only and wrapper_false_is_success (compensated invariants pass, strict ones must fail); TLC-simulated behaviours and seeded random large-amount scenarios executed on the real chain (message router, real Ethereum transactions through DeliverTx so that the hook runs, the application's real ICS-20 stack); every recorded step validated by TLC against the property layer",
+   technique="TLA+ spec Erc20Peg.tla: property layer (backing invariants per pair origin, exact-or-no-effect rule for every conversion path) and as-built machine (ConvertCoin, ConvertERC20, EVM post-tx hook, bank-send wrapper, ICS-20 callbacks, toggle, holder burn, thief drain, contract destruction) parameterised by the behaviour of the token contract - five fixed contracts and a switchable adversarial family (how balanceOf/totalSupply answer: truthfully / no data / revert / 16 bytes / always 0 / too high; what transfer does: honest / nothing / half / double / to the thief instead / to the receiver and as much again to the thief / moves but answers false, nothing, 16 bytes / moves nothing and answers false; for ever or only until the first transfer, so that the answer before a transfer differs from the one after it); the state holds the token's TRUE books, the machine computes what the keeper SEES; TLC exhaustive model checking of the intended design and of the machine with the named defects hook_no_checks and unescrow_receiver_only (compensated invariants pass, strict ones must fail; wrapper_false_is_success, repaired in the code, is kept as a witness configuration); TLC-simulated behaviours and seeded random large-amount scenarios executed on the real chain (message router, real Ethereum transactions through DeliverTx so that the hook runs, the application's real ICS-20 stack); every recorded step validated by TLC against the property layer",
    text="TLC enumerates every sequence of conversions in both directions by message, by ERC20 transfer to the module address (hook), by bank send and by IBC receive/acknowledgement/timeout (both pair origins), ERC20 transfers, approvals, holder burns, pair toggles, thief drains and contract destruction (2 holders + thief, amounts 1..3, both pair origins, honest / delayed-malicious / direct-balance-manipulation / self-destructed / fake-Transfer-log tokens and 22 members of the adversarial family with the owner's arm/disarm switch as a step) and proves the backing invariants and the exact-or-no-effect rule on the intended design; the same behaviours are then executed against the real keepers with the repository's compiled token contracts (thief address substituted so that the drain can be signed) a hand-assembled log-forging token and the hand-assembled adversarial family (34 combinations; armed by a real transaction of its owner after holders converted honestly; the attacker picks amounts adaptively, e.g. exactly what the escrow holds), and TLC decides from real bank supply/balances and the token's books (real totalSupply()/balanceOf() calls; for the adversarial family, whose answers are the thing under test, its contract storage) after every step whether the pair is still backed and whether each step moved both representations by the same amount or neither.",
    note="Bounded by the constants in specs/Erc20Peg_*.cfg; Cosmos messages run through MsgServiceRouter handlers on a cached context (baseapp.runMsgs semantics) rather than signed DeliverTx, Ethereum transactions through full DeliverTx; IBC callbacks are driven by calling the application's transfer stack from the IBC router with crafted packets (no light clients / channel handshake; outgoing MsgTransfer is not driven, the coins in flight of an ERC20-origin pair are put into the channel escrow account by an environment step); contract destruction is a state edit (no SELFDESTRUCT-capable artifact in the repository); a dead contract has no token side, so the backing invariants are only evaluated for living contracts; the adversarial family logs truthfully (lying logs are the fake-Transfer-log token) and leaves out tokens whose two answers within one conversion differ by exactly the converted amount while nothing moved (a forged delta is the only evidence any implementation can have: Erc20Peg_forged_delta.cfg and one fixed witness scenario record that the code mints against nothing for them).")
 
